@@ -1,0 +1,29 @@
+//go:build verif && binary_log
+
+package zerolog
+
+// Contracts that are specific to the binary (CBOR) build. Comment-only.
+//
+// In this build the stream ghosts are advanced at token level only: the CBOR
+// leaf encoders state "one data item" as an assumed postcondition backed by
+// their proved byte-level head/payload postconditions (internal/cbor), and
+// the front-ends are proved against those, so that every event is
+// bf (text-string key, one item)* ff with balanced indefinite containers.
+
+//@ spec objbuf(b bytes) bool = len(b) >= 1 && lex(b) == 0 && (mode(b) == OBJ_FIRST || mode(b) == OBJ_NEXT)
+//@ spec valueok(b bytes) bool = lex(b) == 0 && valuepos(mode(b))
+//@ spec emitsvalue(res bytes, dst bytes) bool = lex(res) == 0 && mode(res) == aftervalue(mode(dst)) && stk(res) == stk(dst) && len(res) > len(dst) && prefix(res, dst)
+//@ spec wholevalue(b bytes) bool = len(b) >= 0
+//@ spec firstbyte(b bytes) bool = b[0] == 0xbf
+
+//@ func appendJSON(dst, j) res
+//@   props C01 C09
+//@   arith int
+//@   requires valueok(dst)
+//@   ensures emitsvalue(res, dst)
+
+//@ func appendCBOR(dst, c) res
+//@   props C01 C09
+//@   arith int
+//@   requires valueok(dst)
+//@   ensures emitsvalue(res, dst)
